@@ -5,7 +5,7 @@ CrossHair models Python floats as reals most of the time, which is unsound for t
 these functions the source is read from /repo at run time (inspect.getsource on the imported
 function), parsed with `ast`, and executed by the small symbolic interpreter below:
 
-  Python int      -> 64-bit bit-vector, with a side obligation for every + - * that the mathematical
+  Python int      -> W-bit bit-vector (W = 40, retried at 64), with a side obligation for every + - * that the mathematical
                      result fits (so the fixed width is *proved* adequate, never assumed)
   int / int, int / float, float / float -> fp.div RNE on Float64; an int operand is converted exactly
                      (side obligation |x| <= 2^53)
@@ -55,8 +55,11 @@ class SInt:
 
 
 class SFloat:
-    def __init__(self, t):
+    def __init__(self, t, intlike=False):
         self.t = t
+        # heuristic only: "this float probably holds an integer" (result of float //, +/-/* of such a value with an int).  It marks
+        # candidate cut points for staged decisions; soundness never rests on it (the cut proves integrality as a side obligation).
+        self.intlike = intlike
 
 
 class SBool:
@@ -139,26 +142,27 @@ def binop(ctx, op, a, b):
         return SFloat(z3.fpDiv(RNE, fa, fb))
     if is_floaty(a) or is_floaty(b):
         fa, fb = to_float_term(ctx, a), to_float_term(ctx, b)
+        il = all((isinstance(x_, SFloat) and x_.intlike) or isinstance(x_, SInt) or (isinstance(x_, int) and not isinstance(x_, bool)) for x_ in (a, b))
         if isinstance(op, ast.Add):
-            return SFloat(z3.fpAdd(RNE, fa, fb))
+            return SFloat(z3.fpAdd(RNE, fa, fb), intlike=il)
         if isinstance(op, ast.Sub):
-            return SFloat(z3.fpSub(RNE, fa, fb))
+            return SFloat(z3.fpSub(RNE, fa, fb), intlike=il)
         if isinstance(op, ast.Mult):
-            return SFloat(z3.fpMul(RNE, fa, fb))
+            return SFloat(z3.fpMul(RNE, fa, fb), intlike=il)
         if isinstance(op, ast.FloorDiv) and not is_sym(b) and float(b) > 0 and float(b) == 2.0 ** round(__import__("math").log2(float(b))):
             # float // 2^k : the quotient is exact (power-of-two divisor, no underflow for |a| >= 2^-900 or a == 0), so floor(a / b) is Python's result
             ctx.need("float // power of two: dividend is 0 or not tiny", z3.Or(z3.fpIsZero(fa), z3.fpGT(z3.fpAbs(fa), z3.FPVal(2.0**-900, F64))))
-            return SFloat(z3.fpRoundToIntegral(z3.RTN(), z3.fpDiv(RNE, fa, fb)))
+            return SFloat(z3.fpRoundToIntegral(z3.RTN(), z3.fpDiv(RNE, fa, fb)), intlike=True)
         raise CannotEncode("float operator %s" % type(op).__name__)
     ia, ib = to_int_term(a), to_int_term(b)
     if isinstance(op, ast.Add):
-        ctx.need("64-bit + does not overflow", z3.And(z3.BVAddNoOverflow(ia, ib, True), z3.BVAddNoUnderflow(ia, ib)))
+        ctx.need("%d-bit + does not overflow" % W, z3.And(z3.BVAddNoOverflow(ia, ib, True), z3.BVAddNoUnderflow(ia, ib)))
         return SInt(ia + ib)
     if isinstance(op, ast.Sub):
-        ctx.need("64-bit - does not overflow", z3.And(z3.BVSubNoOverflow(ia, ib), z3.BVSubNoUnderflow(ia, ib, True)))
+        ctx.need("%d-bit - does not overflow" % W, z3.And(z3.BVSubNoOverflow(ia, ib), z3.BVSubNoUnderflow(ia, ib, True)))
         return SInt(ia - ib)
     if isinstance(op, ast.Mult):
-        ctx.need("64-bit * does not overflow", z3.And(z3.BVMulNoOverflow(ia, ib, True), z3.BVMulNoUnderflow(ia, ib)))
+        ctx.need("%d-bit * does not overflow" % W, z3.And(z3.BVMulNoOverflow(ia, ib, True), z3.BVMulNoUnderflow(ia, ib)))
         return SInt(ia * ib)
     if isinstance(op, ast.FloorDiv):
         ctx.need("// operands non-negative, divisor positive", z3.And(ia >= bv(0), ib > bv(0)))
@@ -212,9 +216,10 @@ class Return(Exception):
 
 
 class Interp:
-    def __init__(self, ctx, func, hints=None, globals_=None, cut=None):
+    def __init__(self, ctx, func, hints=None, globals_=None, cut=None, float_cuts=False):
         self.ctx = ctx
         self.cut = cut  # optional hook(name, lineno, SInt) -> replacement value (stage-wise decisions)
+        self.float_cuts = float_cuts  # also cut at float-typed assignments whose value is (provably) an integer
         src = textwrap.dedent(inspect.getsource(func))
         self.tree = ast.parse(src).body[0]
         self.hints = hints or {}
@@ -240,6 +245,21 @@ class Interp:
                     others = [k for k, x in env.items() if k != st.targets[0].id and is_sym(x)]
                     if not others:
                         env[st.targets[0].id] = self.cut(st.targets[0].id, st.lineno, v)
+                elif self.cut is not None and self.float_cuts and isinstance(st.targets[0], ast.Name) and isinstance(v, SFloat) and v.intlike:
+                    others = [k for k, x in env.items() if k != st.targets[0].id and is_sym(x)]
+                    if not others:
+                        # the float is handed over as the integer it holds; that it holds one (and that the integer fits) is a
+                        # side obligation proved for every input of the stage, so float(int(v)) == v and the next stage may start
+                        # from an integer variable converted back to float
+                        iv = z3.fpToSBV(RTZ, v.t, z3.BitVecSort(W))
+                        self.ctx.need("float cut point %s (line %d) holds an integer that fits %d bits" % (st.targets[0].id, st.lineno, W),
+                                      z3.And(z3.Not(z3.fpIsNaN(v.t)), z3.Not(z3.fpIsInf(v.t)), z3.fpLT(z3.fpAbs(v.t), z3.FPVal(2.0 ** min(W - 2, 52), F64)),
+                                             z3.fpEQ(z3.fpSignedToFP(RNE, iv, F64), v.t)))
+                        rep = self.cut(st.targets[0].id, st.lineno, SInt(iv))
+                        if isinstance(rep, SInt):
+                            env[st.targets[0].id] = SFloat(z3.fpSignedToFP(RNE, rep.t, F64), intlike=True)
+                        else:
+                            env[st.targets[0].id] = float(int(rep))
             elif isinstance(st, ast.AugAssign):
                 if not isinstance(st.target, ast.Name):
                     raise CannotEncode("augmented assignment target")
@@ -662,6 +682,21 @@ def job_convert_value(job):
 
 
 def job_convert_value_staged(job):
+    """staged decision; when it ends undecided with the int-typed cut points only, it is repeated with cut points at float-typed
+    assignments that provably hold integers as well (more, smaller stages)"""
+    res = _job_convert_value_staged(job, False)
+    if res.get("state") == "UNKNOWN":
+        res2 = _job_convert_value_staged(job, True)
+        res2["queries"] = res2.get("queries", 0) + res.get("queries", 0)
+        res2["solver_s"] = res2.get("solver_s", 0.0) + res.get("solver_s", 0.0)
+        if res2.get("state") != "UNKNOWN":
+            res2["note"] = "decided with additional cut points at integer-valued float assignments (first attempt: %s)" % res.get("message", "")[:200]
+        if res2.get("state") in ("CONFIRMED", "POST_FAIL"):
+            return res2
+    return res
+
+
+def _job_convert_value_staged(job, float_cuts):
     """convert_value for one concrete tuple decided stage by stage.  The function is a chain
     value_0 -> value_1 -> ... -> result in which every int-valued assignment (with no other symbolic
     variable alive) is a cut point.  Per stage i the solver decides, for EVERY input in the interval
@@ -686,7 +721,7 @@ def job_convert_value_staged(job):
             cuts.append((name, lineno, cv))
             return cv
         ctx = Ctx()
-        res = Interp(ctx, convert_value, cut=hook).run(dict(base_env, value=SInt(bv(c))))
+        res = Interp(ctx, convert_value, cut=hook, float_cuts=float_cuts).run(dict(base_env, value=SInt(bv(c))))
         out = z3.simplify(to_int_term(res)).as_signed_long() if is_sym(res) else int(res)
         return cuts, out
     # translator validation on concrete vectors
@@ -726,7 +761,7 @@ def job_convert_value_staged(job):
             raise Stop()
         ctx = Ctx()
         try:
-            res = Interp(ctx, convert_value, cut=hook).run(dict(base_env, value=(x if i == 0 else SInt(bv(lo)))))
+            res = Interp(ctx, convert_value, cut=hook, float_cuts=float_cuts).run(dict(base_env, value=(x if i == 0 else SInt(bv(lo)))))
             state["out"] = res if is_sym(res) else SInt(bv(int(res)))
             final = True
         except Stop:
